@@ -281,9 +281,24 @@ def body_pair(prop):
             E.tag("not-joined")
             E.check("checked", True)
             return ["not-joined"]
-        segs = [s for s in joined.segments]
-        nl = segs[0] if len(segs) > 0 else AlignmentSegment.create([], left.peak, [])
-        nr = segs[1] if len(segs) > 1 else AlignmentSegment.create([], right.peak, [])
+        # the joined record lists the surviving segments in reference order (empty ones dropped): find each part's remainder by identity
+        lids, rids = {id(p) for p in left.positions}, {id(p) for p in right.positions}
+        nl = nr = None
+        foreign = False
+        for sg in joined.segments:
+            ids = {id(p) for p in sg.positions}
+            if not ids:
+                continue
+            if ids <= lids and nl is None:
+                nl = sg
+            elif ids <= rids and nr is None:
+                nr = sg
+            else:
+                foreign = True
+        if foreign and prop == "C15":
+            E.fail("pairwise-resolution-only-removes-positions-keeping-a-contiguous-run")
+        nl = nl if nl is not None else AlignmentSegment.create([], left.peak, [])
+        nr = nr if nr is not None else AlignmentSegment.create([], right.peak, [])
         rev = ctx["rev"]
         both = sorted((p.reference.siteId, p.query.siteId) for s in (nl, nr) for p in s.alignedPositions)
         if both:
